@@ -94,7 +94,17 @@ def do_step(step, root):
         st0 = conv.process(overwrite=False)
         pre = {"status": int(st0), "changed": [d[0] for d in snap_diff(s0, snapshot(root))][:6]}
     status = conv.process(overwrite=step["overwrite"])
-    return {"status": int(status), "pre": pre}
+    post = None
+    if step.get("post_noop_call") and status == 1 and Path(root, step["ap_file"]).exists():
+        # ... and afterwards the same object is asked again for a plain run: must do nothing
+        s0 = snapshot(root)
+        st1 = conv.process(overwrite=False)
+        post = {"status": int(st1), "changed": [d[0] for d in snap_diff(s0, snapshot(root))][:6]}
+    again = None
+    if step.get("repeat_forced") and status == 1 and Path(root, step["ap_file"]).exists():
+        # ... or for a second WRITING run: forced re-run on the same object
+        again = int(conv.process(overwrite=True))
+    return {"status": int(status), "pre": pre, "post": post, "again": again}
 
 
 def eligible(label):
@@ -134,6 +144,10 @@ def _gen_step(r, nfaults, first):
           "post_check": r.random() < 0.7, "compress": r.random() < 0.6, "delete_original": r.random() < 0.35}
     want = nfaults < 2 and r.random() < 0.6
     st["fault"] = {"auto": True, "rseed": r.randrange(1 << 30)} if want else None
+    if st["fault"] is None and r.random() < 0.2:
+        st["post_noop_call"] = True
+    elif st["fault"] is None and r.random() < 0.15:
+        st["repeat_forced"] = True
     if not first and r.random() < 0.15:
         # two calls on ONE converter object: a plain run (expected to do nothing over complete output), then this step's call
         st["pre_noop_call"] = True
@@ -355,6 +369,11 @@ def _exec_step(W, st, model, log, stats, bump, seed):
     st["ap_file"] = os.path.relpath(orig, W.root)
     st["nwindow"] = W.w["nwindow"]
     pool_seed = seed % 1000
+    if st.get("repeat_forced") and (st.get("fault") or W.w["kind"] not in ("NP24", "NP24_1sh", "NP21") or st.get("delete_original")
+                                    or (W.w["kind"] == "NP21" and st.get("compress") and W.orig_path() == W.bin)):
+        st["repeat_forced"] = False      # the original must still be there, in the same form, for the second call
+    if st.get("post_noop_call") and (st.get("fault") or W.w["kind"] not in ("NP24", "NP24_1sh", "NP21") or st.get("delete_original")):
+        st["post_noop_call"] = False
     if st.get("pre_noop_call") and (st.get("fault") or not (model["completed"] and not model["dirty"])):
         st["pre_noop_call"] = False      # only meaningful over complete earlier output, and fault-free
     fault = st.get("fault")
@@ -439,6 +458,16 @@ def _exec_step(W, st, model, log, stats, bump, seed):
         bump("probes", "two_calls_on_one_converter_object")
         if pre["status"] != 0 or pre["changed"]:
             raise Violation("C04.S3", f"{sig0}:same-object-noop", f"plain run over complete output on the same converter object returned {pre['status']} and changed {pre['changed']} | " + ctx)
+    post = out["ok"].get("post") if out and "ok" in out else None
+    if post is not None:
+        bump("probes", "two_calls_on_one_converter_object")
+        if post["status"] != 0 or post["changed"]:
+            raise Violation("C04.S3", f"{sig0}:same-object-rerun", f"plain run on the same converter object right after a completed run returned {post['status']} and changed {post['changed']} | " + ctx)
+    again = out["ok"].get("again") if out and "ok" in out else None
+    if again is not None:
+        bump("probes", "two_writing_calls_on_one_converter_object")
+        if again != 1:
+            raise Violation("C04.S4", f"{sig0}:same-object-forced-status", f"forced re-run on the same converter object returned {again} | " + ctx)
     changed = snap_diff(before, after)
     if status in (0, -1) and changed:
         what = "prior-complete" if model["completed"] and not model["dirty"] else ("fresh" if fresh else "debris")
